@@ -73,6 +73,12 @@ CHECKS = {
     text="All three atomic models (c11, sync, sim) are built by the repository's own CMake and driven by the same harness: exhaustive boundary operand pairs + random pairs against wrapping 32-bit / pointer-width arithmetic; "
          "T<=64 threads of tickets, strides, refcounts, CAS counters, bit ownership and tagged words whose returned values must form a sequential history; SB litmus (set/get as full barriers, (0,0) forbidden; verified to fire when set/get are weakened to release/acquire) and MP with plain payload under TSan.",
     note="TSan not applied to sync; UBSan not applied to sim wrap-around operands; x86-TSO hides some barrier weakenings from the value oracles."),
+ "C01": dict(cat="exploration", ref="§3 C01",
+    technique="runtime shadow-state monitor inside critical sections (owner word, record consistency, counter equality) + acknowledgement handshakes for trylock + ThreadSanitizer as happens-before oracle, across c11/sync/sim builds",
+    text="PMutex and PSpinLock (c11, sync and sim models, each built by the repository's CMake) under 2..64 threads mixing lock/trylock on 1 or 3 objects: every acquisition checks that no other holder is inside, that the previous "
+         "holder's record is complete and that counters add up; trylock is probed with a clock-free handshake (FALSE and returning while held, TRUE when free) and single-threaded; TSan builds use plain payload only so a weakened "
+         "acquire/release is reported as a race. A driver-internal progress watchdog turns a lock call that never returns into a violation.",
+    note="TSan not applied to the sync model; interleavings are those the OS produces under oversubscription."),
 }
 
 NOT_YET = {}
